@@ -3,6 +3,9 @@ package main
 import (
 	"fmt"
 	"os"
+	"os/exec"
+	"strings"
+	"time"
 	"sort"
 )
 
@@ -367,12 +370,95 @@ func (r *Run) makeWitness() {
 	r.witness = w
 }
 
-// fallbackQuery re-decides conj ∧ extra with one-shot solver processes when the incremental session said unknown.
+// fallbackQuery re-decides conj ∧ extra with one-shot solver processes (different strategies: the
+// non-incremental z3 front end picks the bit-blasting tactic) when the incremental session said unknown.
 func (w *Worker) fallbackQuery(r *Run, conj []*Term, extra *Term) Res {
-	return Unknown
+	t0 := time.Now()
+	defer func() { w.fbDur += time.Since(t0) }()
+	w.fallbacks++
+	script := w.standaloneScript(append(append([]*Term(nil), conj...), extra))
+	type ans struct {
+		res Res
+		who string
+	}
+	cmds := [][]string{
+		{"/usr/local/bin/z3-new", "-smt2", "-in", fmt.Sprintf("-T:%d", w.ex.cfg.FallbackTimeoutS)},
+		{"/usr/bin/z3", "-smt2", "-in", fmt.Sprintf("-T:%d", w.ex.cfg.FallbackTimeoutS)},
+	}
+	ch := make(chan ans, len(cmds))
+	var procs []*exec.Cmd
+	for _, c := range cmds {
+		cmd := exec.Command(c[0], c[1:]...)
+		cmd.Stdin = strings.NewReader(script)
+		procs = append(procs, cmd)
+		go func(cmd *exec.Cmd, who string) {
+			out, _ := cmd.Output()
+			s := strings.TrimSpace(string(out))
+			switch {
+			case strings.HasPrefix(s, "unsat"):
+				ch <- ans{Unsat, who}
+			case strings.HasPrefix(s, "sat"):
+				ch <- ans{Sat, who}
+			default:
+				ch <- ans{Unknown, who}
+			}
+		}(cmd, c[0])
+	}
+	res := Unknown
+	for range cmds {
+		a := <-ch
+		if a.res != Unknown {
+			res = a.res
+			break
+		}
+	}
+	for _, p := range procs {
+		if p.Process != nil {
+			p.Process.Kill()
+		}
+	}
+	return res
 }
 
-var debugPfx = os.Getenv("GOSYM_TRACEPFX")
+// standaloneScript renders a self-contained SMT-LIB script deciding the conjunction of ts.
+func (w *Worker) standaloneScript(ts []*Term) string {
+	var sb strings.Builder
+	seen := map[*Term]bool{}
+	ufSeen := map[string]bool{}
+	tmp := &Solver{ctx: w.ctx}
+	var emit func(t *Term)
+	emit = func(t *Term) {
+		if seen[t] || t.op == OConst {
+			return
+		}
+		seen[t] = true
+		for _, a := range t.a {
+			emit(a)
+		}
+		switch t.op {
+		case OVar:
+			sb.WriteString("(declare-const " + t.name + " " + sortSMT(t.w) + ")\n")
+			return
+		case OUF:
+			if !ufSeen[t.name] {
+				ufSeen[t.name] = true
+				d := w.ctx.ufs[t.name]
+				sb.WriteString("(declare-fun uf_" + d.name + " (")
+				for _, aw := range d.argW {
+					sb.WriteString(sortSMT(aw) + " ")
+				}
+				sb.WriteString(") " + sortSMT(d.resW) + ")\n")
+			}
+		}
+		sb.WriteString(tmp.defString(t) + "\n")
+	}
+	for _, t := range ts {
+		emit(t)
+		sb.WriteString("(assert " + tmp.ref(t) + ")\n")
+	}
+	sb.WriteString("(check-sat)\n")
+	return sb.String()
+}
 
 // flattenAnd returns the conjuncts of an and-tree (at most max of them; a larger tree is returned whole).
 func flattenAnd(c *Term, max int) []*Term {
@@ -390,3 +476,4 @@ func flattenAnd(c *Term, max int) []*Term {
 	}
 	return out
 }
+var debugPfx = os.Getenv("GOSYM_TRACEPFX")
